@@ -62,6 +62,11 @@ CLAIMS = {
          "Each history creates up to 16 channels concurrently against a peer that acknowledges channel setup, waits for all requests of a round and interleaves the per-channel responses packet by packet in a generated order; ids must be distinct, every channel must receive exactly its own script in order, the peer must see the right channel id, consecutive packet numbers and the channel's own request text in every packet, packets for unknown ids must produce one connection error each and disturb nothing; data races are reported by the race detector (only reports with a library frame on top of an access count).",
          "Schedules are sampled (GOMAXPROCS 1/2/4/16, goroutine per channel), not enumerated; one sender/consumer per channel; junk packets are injected while no consumer waits.",
          "DESIGN.md section 3, C12"),
+ "C13": ("exploration",
+         "rapid histories with harness-owned interleavings (scripted transport gates, queue fill levels, blocked consumers, peers answering the logout at once / late / never) under the race detector; oracle = watchdog bounds + closed-condition checks on every call + transport/reader state",
+         "Four families of histories are generated: receive with a cancelled own/connection context (before or during the call, any queue fill level, packets still arriving), send with a cancelled context (must write zero bytes), Close of the main or a logical channel in a generated state (queue empty / partly filled / full with the reader parked on it, consumer blocked in NextPackage, SendPackage parked in Write, logout answered at once / late / never) followed by every call on the closed channel and by packets for its id, and Conn.Close with 1..4 channels (error queue full, reader parked). Bounds: 1 s for cancelled receives, 5 s for Close (65 s where the library's one-minute logout timeout applies, thorough tier), 2 s for the reader to end.",
+         "'Promptly'/'bounded' are wall-clock bounds with generous slack; schedules are sampled; on the main channel a consumer blocked in NextPackage races with the logout for the server's DONE, so that state is only run with the 65 s bound in the thorough tier.",
+         "DESIGN.md section 3, C13"),
  "C14": ("fault_enumeration",
          "exhaustive fault-offset enumeration over rapid-generated responses: transport failure injected after every byte offset x failure kind, through the real reader goroutine; oracle = exact complete-packet prefix of the delivery model, then an error within the bound",
          "For generated responses (<= 400 bytes, 1..5 packets) the scripted transport starts failing after every byte offset 0..len with EOF, a reset-style and a timeout-style error (read timeout 0 s exhaustively, 1 s sampled); the consumer must get exactly the packages contained in completely received packets, a synthetic final DONE only if the EOM packet arrived completely, and then an error within PacketReadTimeout + 2 s; write-side faults (error / short count at write j) must surface as errors from SendPackage.",
